@@ -43,6 +43,11 @@ pub fn generate(rng: &mut Rng, tier: Tier) -> Value {
         // a module graph (same generator as C17, fault-free): records, environments, namespaces,
         // async evaluation state under collection schedules
         let g: crate::props::c17::Scenario = serde_json::from_value(crate::props::c17::generate(rng, tier)).expect("graph");
+        let mut g = g;
+        for m in &mut g.mods {
+            // fault-free: no unresolvable imports
+            m.imports.retain(|im| im.kind != 7);
+        }
         let parts: Vec<String> = g.mods.iter().enumerate().map(|(i, m)| crate::props::c17::render(i, m)).collect();
         let sched = match rng.below(6) {
             0 => Sched::EveryK(1),
